@@ -108,6 +108,14 @@ func (p *nodePipeline) run() {
 	// 同一条连接一旦发生协议/网络错误，后续 pending 请求的回复边界已不可信，
 	// 因此要整体失败，而不是继续尝试逐个读出。
 	failPending := func(err error) {
+		// The pending requests never got a reply of their own: for them the
+		// connection was lost. Do not hand them the failing request's error value
+		// itself — a MOVED/ASK reply that belongs to another transaction must not
+		// be mistaken for their own redirect (they may already have been executed
+		// by the node and would be replayed a second time).
+		if len(pending) > 0 {
+			err = fmt.Errorf("node pipeline connection reset by a previous request error: %v", err)
+		}
 		for _, req := range pending {
 			req.complete(nil, err)
 		}
